@@ -230,9 +230,10 @@ class OracleDisagreement(Exception):
     pass
 
 
-def check_iso(G, SG, nm, em, rnd, cache=None):
+def check_iso(G, SG, nm, em, rnd, cache=None, cls=None):
     """-> (problem or None, info)"""
     from vermouth.ismags import ISMAGS
+    ISMAGS = cls or ISMAGS
     node_match, edge_match = matchers(nm, em)
     own = oracle_isos(G, SG, nm, em)
     if len(SG) and own != vf2_isos(G, SG, nm, em):
@@ -290,8 +291,9 @@ def check_iso(G, SG, nm, em, rnd, cache=None):
     return None, info
 
 
-def check_lcs(G, SG, nm, em, cache=None):
+def check_lcs(G, SG, nm, em, cache=None, cls=None):
     from vermouth.ismags import ISMAGS
+    ISMAGS = cls or ISMAGS
     node_match, edge_match = matchers(nm, em)
     node_ok = (lambda g, p: G.nodes[g].get('c') == SG.nodes[p].get('c')) if nm else (lambda g, p: True)
     edge_ok = (lambda g1, g2, p1, p2: G.edges[g1, g2].get('e') == SG.edges[p1, p2].get('e')) if em else None
@@ -344,10 +346,11 @@ def lcs_oracle(G, SG, nm, em):
     return 0, set()
 
 
-def check_history(G, SG, nm, em, rnd, cache=None):
+def check_history(G, SG, nm, em, rnd, cache=None, cls=None):
     """One matcher object asked several questions in a row: every answer must be the answer a fresh object gives (= the
     oracle's).  State kept on the object between calls (cached candidates, partitions, symmetry) must not leak."""
     from vermouth.ismags import ISMAGS
+    ISMAGS = cls or ISMAGS
     node_match, edge_match = matchers(nm, em)
     own = oracle_isos(G, SG, nm, em)
     auts = oracle_auts(SG, nm, em)
@@ -413,6 +416,11 @@ PINNED = [
      [18, 57, 60, 10, 33, 74, 34], [[18, 33, 1], [18, 74, 0], [18, 10, 0], [57, 60, 1], [60, 74, 1], [60, 33, 1], [60, 34, 1], [10, 74, 0], [10, 34, 1], [33, 34, 0]]),
     ([10, 38, 58, 24, 32, 17], [[10, 24, 0], [10, 17, 1], [38, 24, 1], [38, 58, 0], [58, 32, 1], [32, 17, 0]],
      [53, 21, 83, 48, 65, 79, 40, 26], [[53, 79, 1], [53, 26, 1], [21, 40, 1], [21, 65, 0], [83, 26, 1], [83, 65, 1], [48, 40, 1], [48, 26, 1]]),
+    # false symmetry of the pinned algorithm (known finding): symmetric search returns nothing although the host contains the pattern
+    ([58, 16, 55, 17, 2, 53, 56, 52, 42], [[58, 52, 0], [58, 17, 0], [58, 55, 0], [58, 56, 0], [58, 53, 0], [16, 17, 0], [16, 53, 0], [16, 42, 0], [16, 56, 0], [16, 55, 0], [55, 17, 0], [55, 52, 0], [55, 42, 0], [55, 2, 0], [17, 53, 0], [17, 2, 0], [17, 52, 0], [17, 42, 0], [17, 56, 0], [2, 52, 0], [2, 56, 0], [2, 42, 0], [2, 53, 0], [53, 42, 0], [56, 52, 0], [52, 42, 0]],
+     [88, 67, 83, 59, 94, 3, 32, 79, 45, 200], [[88, 94, 0], [88, 45, 0], [88, 3, 0], [88, 67, 0], [88, 59, 0], [88, 83, 0], [88, 200, 0], [67, 79, 0], [67, 32, 0], [67, 45, 0], [67, 3, 0], [83, 79, 0], [83, 32, 0], [83, 45, 0], [83, 59, 0], [59, 32, 0], [59, 94, 0], [59, 45, 0], [59, 3, 0], [94, 79, 0], [94, 32, 0], [94, 45, 0], [94, 3, 0], [3, 79, 0], [3, 45, 0], [32, 45, 0], [79, 45, 0]]),
+    ([8, 10, 36, 53, 52, 21, 16, 23], [[8, 10, 0], [8, 21, 0], [8, 23, 0], [8, 36, 0], [8, 52, 0], [10, 21, 0], [10, 23, 0], [10, 36, 0], [10, 53, 0], [36, 16, 0], [36, 23, 0], [36, 53, 0], [53, 16, 0], [53, 52, 0], [52, 21, 0], [52, 23, 0], [21, 16, 0], [16, 23, 0]],
+     [73, 52, 93, 69, 27, 31, 13, 1, 200], [[73, 69, 0], [73, 13, 0], [73, 27, 0], [73, 52, 0], [73, 31, 0], [73, 200, 0], [52, 69, 0], [52, 13, 0], [52, 1, 0], [52, 27, 0], [93, 69, 0], [93, 13, 0], [93, 1, 0], [93, 27, 0], [69, 13, 0], [69, 1, 0], [27, 31, 0], [31, 13, 0], [31, 1, 0]]),
 ]
 
 
@@ -495,6 +503,29 @@ def run_case(params):
                 'lcs_cases': int(lcs and not hist), 'iso_cases': int(not lcs), 'one_object_call_histories': int(hist), 'node_coloured': int(nm), 'edge_coloured': int(em),
                 'pattern_disconnected': int(len(SG) > 0 and not nx.is_connected(SG)),
                 'pattern_kind_' + kind.split(':')[0]: 1})
+        if p and ('sym' in p[0]) and not p[0].startswith(('nosym/', 'lcs-nosym/')):
+            # Is this the known false-symmetry defect of the pinned algorithm?  Only if (i) the violation reproduces with fresh
+            # objects and no shared cache, and (ii) the frozen copy of the pinned algorithm gives exactly the same wrong
+            # answer on this very input.  Anything else is reported as a violation.
+            try:
+                with harness.sub_alarm(3 * limit):
+                    from ..oracles import ismags_pinned
+                    import random as _random
+                    if hist:
+                        fresh, _ = check_iso(G, SG, nm, em, _random.Random(1), None) if 'iso' in p[0] else check_lcs(G, SG, nm, em, None)
+                        pinned_, _ = (check_iso(G, SG, nm, em, _random.Random(1), None, ismags_pinned.ISMAGS) if 'iso' in p[0]
+                                      else check_lcs(G, SG, nm, em, None, ismags_pinned.ISMAGS))
+                    elif lcs:
+                        fresh, _ = check_lcs(G, SG, nm, em, None)
+                        pinned_, _ = check_lcs(G, SG, nm, em, None, ismags_pinned.ISMAGS)
+                    else:
+                        fresh, _ = check_iso(G, SG, nm, em, _random.Random(1), None)
+                        pinned_, _ = check_iso(G, SG, nm, em, _random.Random(1), None, ismags_pinned.ISMAGS)
+                if fresh and pinned_ and fresh != 'skip' and pinned_ != 'skip' and fresh[0] == pinned_[0] and fresh[1] == pinned_[1]:
+                    b.feat('known_false_symmetry_of_the_pinned_algorithm')
+                    p = ('pinned-algorithm/false-symmetry', dict(p[1], observed_as=p[0], fresh_objects=fresh[0]))
+            except harness.CaseTimeout:
+                pass
         if p:
             desc = describe(SG, G, nm, em)
             b.violation(p[0], 'ISMAGS result differs from exhaustive enumeration (%s)' % p[0],
